@@ -1,8 +1,445 @@
-From Coq Require Import ZArith List Bool Lia.
+(* C06 — applying repetition modifiers unrolls n back-to-back copies, once: the program-level statements.
+   The graph-level theory is in Core/UnrollProofs.v (multiset, counts, idempotence, sizes) and Core/UnrollTimes.v (where and
+   when the copies are placed). *)
+From Coq Require Import ZArith List Bool Lia Arith Permutation.
 Import ListNotations.
-From QCE Require Import Base.Prelude Core.Model.
+From QCE Require Import Base.Prelude Core.Model Core.Run Core.BfsProofs Core.BfsWf Core.TimesWf C02.Run C02.Proofs
+  Core.UnrollProofs Core.UnrollTimes C06.Run.
+From Gen Require Import Ident Classes.
 Open Scope Z_scope.
 
 (* unrolling once: a count of 1 leaves the node list unchanged up to the (idempotent) recursion into sub-circuits *)
 Lemma repeat_nodes_one env ns : repeat_nodes env ns 1 = ns.
 Proof. reflexivity. Qed.
+
+(* ------------------------------------------------------------------ the expected leaves of a program *)
+(* every leaf of the program, product-of-enclosing-counts times *)
+Fixpoint cmd_expanded (c : cmd) : list leaf :=
+  match c with
+  | CAdd l _ => [l]
+  | CDangling l _ => [l]
+  | CSub r body =>
+      rep_app (Z.to_nat r) ((fix go (l : list cmd) : list leaf := match l with [] => [] | x :: t => cmd_expanded x ++ go t end) body)
+  end.
+Definition prog_expanded (p : list cmd) : list leaf := flat_map cmd_expanded p.
+
+Lemma cmd_expanded_sub r body : cmd_expanded (CSub r body) = rep_app (Z.to_nat r) (flat_map cmd_expanded body).
+Proof. reflexivity. Qed.
+
+(* it is the multiset C06.Run.spec_ok compares the implementation's unrolled listing with *)
+Lemma repeat_list_rep_app {A} n (l : list A) : repeat_list n l = rep_app n l.
+Proof. induction n as [|n IH]; simpl; [reflexivity | now rewrite IH]. Qed.
+
+Lemma keys_cmd_expanded env c : keys_cmd env c = map (key_of_leaf env) (cmd_expanded c).
+Proof.
+  induction c as [l r | l t | r body IH] using cmd_ind'; try reflexivity.
+  rewrite cmd_expanded_sub, rep_app_map. simpl. rewrite repeat_list_rep_app. f_equal.
+  induction IH as [|c body H _ IHb]; simpl; [reflexivity|]. now rewrite map_app, H, IHb.
+Qed.
+
+Lemma expected_keys_expanded env p : expected_keys env p = map (key_of_leaf env) (prog_expanded p).
+Proof.
+  unfold expected_keys, prog_expanded. induction p as [|c p IH]; simpl; [reflexivity|].
+  now rewrite map_app, keys_cmd_expanded, IH.
+Qed.
+
+(* ------------------------------------------------------------------ hypotheses on programs *)
+(* every command list, times the count of its block, has at most 4999 entries; every count is at least 1 *)
+Inductive unroll_small_cmd : cmd -> Prop :=
+| us_add l r : unroll_small_cmd (CAdd l r)
+| us_dangling l t : unroll_small_cmd (CDangling l t)
+| us_sub r body : 1 <= r -> Z.of_nat (length body) * r <= 4999 -> Forall unroll_small_cmd body -> unroll_small_cmd (CSub r body).
+Definition unroll_small_prog (p : list cmd) : Prop := Z.of_nat (length p) <= 4999 /\ Forall unroll_small_cmd p.
+
+Lemma unroll_small_cmd_rsize env c : unroll_small_cmd c -> rsize_ok (cmd_op env c).
+Proof.
+  induction c as [l r | l t | r body IH] using cmd_ind'; intros S; [constructor | constructor |].
+  inversion S as [| | ? ? Hr SL SB]; subst. cbn [cmd_op].
+  assert (X : rsize_ok (copy_op env (OComp r (run_prog env body)))).
+  { apply rsize_ok_copy; [apply run_prog_wf_op|]. constructor; [exact Hr | |].
+    - unfold run_prog. rewrite run_cmds_length. simpl. exact SL.
+    - apply (proj1 (Forall_map n_op rsize_ok _)). unfold run_prog. rewrite run_cmds_ops. simpl. apply Forall_map.
+      rewrite Forall_forall in *. intros c Hc. apply IH; auto. }
+  rewrite copy_op_comp in X. rewrite copy_nodes_eq. exact X.
+Qed.
+
+Lemma unroll_small_prog_rsize env p : unroll_small_prog p -> rsize_ok (OComp 1 (run_prog env p)).
+Proof.
+  intros [SL SB]. constructor; [lia | |].
+  - unfold run_prog. rewrite run_cmds_length. simpl. lia.
+  - apply (proj1 (Forall_map n_op rsize_ok _)). unfold run_prog. rewrite run_cmds_ops. simpl. apply Forall_map.
+    rewrite Forall_forall in *. intros c Hc. apply unroll_small_cmd_rsize; auto.
+Qed.
+
+Lemma rsize_ok_ok o : wf_op o -> rsize_ok o -> ok o.
+Proof. intros W H. split; [exact W | apply rsize_ok_size_ok; exact H]. Qed.
+
+Lemma unroll_small_prog_ok env p : unroll_small_prog p -> ok (OComp 1 (run_prog env p)).
+Proof. intros H. apply rsize_ok_ok; [apply run_prog_wf_op | apply unroll_small_prog_rsize; exact H]. Qed.
+
+(* ------------------------------------------------------------------ expanded leaves of the built circuit *)
+Section Obs.
+  Variable env : denv.
+  Variable B : Type.
+  Variable f : leaf -> B.
+  Hypothesis Hf : forall l, f (copy_leaf l) = f l.
+
+  Lemma cmd_op_fexpanded c : unroll_small_cmd c -> Permutation (fexpanded B f (cmd_op env c)) (map f (cmd_expanded c)).
+  Proof.
+    induction c as [l r | l t | r body IH] using cmd_ind'; intros S; try apply Permutation_refl.
+    inversion S as [| | ? ? Hr SL SB]; subst. cbn [cmd_op]. rewrite fexpanded_comp, cmd_expanded_sub, rep_app_map.
+    apply rep_app_perm. change (run_cmds env body []) with (run_prog env body).
+    assert (K : ok (OComp 1 (run_prog env body))).
+    { apply unroll_small_prog_ok. split; [nia | exact SB]. }
+    apply ok_comp_inv in K as (W & L & F).
+    rewrite (measure_copy_nodes env B (fexpanded B f) (copy_fexpanded env B f Hf) _ W L F).
+    unfold run_prog. rewrite run_cmds_ops. simpl. rewrite flat_map_map, C02.Proofs.map_flat_map.
+    apply Permutation_flat_map_pointwise. rewrite Forall_forall in *. intros c Hc. apply IH; auto.
+  Qed.
+
+  Lemma run_prog_fexpanded p : unroll_small_prog p ->
+    Permutation (fexpanded B f (OComp 1 (run_prog env p))) (map f (prog_expanded p)).
+  Proof.
+    intros [SL SB]. rewrite fexpanded_comp. change (Z.to_nat 1) with 1%nat. rewrite rep_app_one.
+    unfold run_prog. rewrite run_cmds_ops. simpl. unfold prog_expanded. rewrite flat_map_map, C02.Proofs.map_flat_map.
+    apply Permutation_flat_map_pointwise. rewrite Forall_forall in *. intros c Hc. apply cmd_op_fexpanded; auto.
+  Qed.
+
+  (* 4./9. the unrolled circuit lists every leaf of the program product-of-enclosing-counts times, nothing else *)
+  Theorem unroll_listing_fmultiset p : unroll_small_prog p ->
+    Permutation (map f (map e_leaf (listing env (apply_modifiers env 1 (run_prog env p))))) (map f (prog_expanded p)).
+  Proof.
+    intros S. rewrite listing_leaves.
+    rewrite (op_leaves_perm _ (unroll_listable env 1 _ (run_prog_wf_op env 1 p) (unroll_small_prog_rsize env p S))).
+    change (Permutation (fleaves B f (OComp 1 (apply_modifiers env 1 (run_prog env p)))) (map f (prog_expanded p))).
+    rewrite (unroll_fmultiset env B f Hf 1 _ (unroll_small_prog_ok env p S)
+               (rsize_ok_reps_pos _ (unroll_small_prog_rsize env p S))).
+    apply run_prog_fexpanded. exact S.
+  Qed.
+End Obs.
+
+(* the per-class copy() of the current source keeps every field of the model's leaves (C02: current_table_faithful) *)
+Lemma copy_leaf_id_table : table_faithful = true -> forall l, copy_leaf l = l.
+Proof. intros T l. apply copy_leaf_faithful. apply table_faithful_leaf. exact T. Qed.
+
+Lemma copy_leaf_id_current : forall l, copy_leaf l = l.
+Proof. apply copy_leaf_id_table. exact current_table_faithful. Qed.
+
+Theorem unroll_listing_multiset_table env p : table_faithful = true -> unroll_small_prog p ->
+  Permutation (map e_leaf (listing env (apply_modifiers env 1 (run_prog env p)))) (prog_expanded p).
+Proof.
+  intros T S. rewrite <- (map_id (map e_leaf _)), <- (map_id (prog_expanded p)).
+  apply (unroll_listing_fmultiset env leaf (fun l => l)); [|exact S]. apply copy_leaf_id_table. exact T.
+Qed.
+
+Theorem unroll_listing_multiset env p : unroll_small_prog p ->
+  Permutation (map e_leaf (listing env (apply_modifiers env 1 (run_prog env p)))) (prog_expanded p).
+Proof. apply unroll_listing_multiset_table. exact current_table_faithful. Qed.
+
+(* independent of the class table: on labels *)
+Theorem unroll_listing_labels env p : unroll_small_prog p ->
+  Permutation (map l_lab (map e_leaf (listing env (apply_modifiers env 1 (run_prog env p))))) (map l_lab (prog_expanded p)).
+Proof. apply unroll_listing_fmultiset. reflexivity. Qed.
+
+(* in the terms of C06.Run.spec_ok *)
+Theorem unroll_listing_keys env p : unroll_small_prog p ->
+  Permutation (map (key_of_leaf env) (map e_leaf (listing env (apply_modifiers env 1 (run_prog env p))))) (expected_keys env p).
+Proof.
+  intros S. rewrite expected_keys_expanded. apply unroll_listing_fmultiset; [|exact S].
+  intros l. now rewrite copy_leaf_id_current.
+Qed.
+
+(* graph level, no listing: leaves of the unrolled structure *)
+Theorem unroll_leaves_multiset env p : unroll_small_prog p ->
+  Permutation (leaves_of (OComp 1 (apply_modifiers env 1 (run_prog env p)))) (prog_expanded p).
+Proof.
+  intros S. pose proof (unroll_fmultiset env leaf (fun l => l) copy_leaf_id_current 1 _ (unroll_small_prog_ok env p S)
+                          (rsize_ok_reps_pos _ (unroll_small_prog_rsize env p S))) as H.
+  unfold fleaves in H. rewrite map_id in H. rewrite H.
+  pose proof (run_prog_fexpanded env leaf (fun l => l) copy_leaf_id_current p S) as H2. rewrite map_id in H2. exact H2.
+Qed.
+
+(* 5. every count is 1 afterwards; 6. applying again changes nothing *)
+Theorem prog_unroll_counts_one env p : counts_one (OComp 1 (apply_modifiers env 1 (run_prog env p))).
+Proof. apply unroll_counts_one. Qed.
+
+Theorem prog_unroll_idem env p :
+  apply_modifiers env 1 (apply_modifiers env 1 (run_prog env p)) = apply_modifiers env 1 (run_prog env p).
+Proof. apply unroll_idem. Qed.
+
+(* ------------------------------------------------------------------ where and when the copies are placed *)
+From QCE Require Import Core.CopyOrder Core.UnrollOrder Core.UnrollDuration Core.TimesProofs.
+
+(* blocks built by a program carry only plain links (none, or a relation to one node); so do their copies *)
+Lemma cmd_link_not_multi c : match cmd_link c with LMulti _ => False | _ => True end.
+Proof. destruct c as [l [[ty p]|] | l ty | r body]; exact I. Qed.
+
+Lemma run_cmds_simple env cs : forall ns, simple_links ns -> simple_links (run_cmds env cs ns).
+Proof.
+  induction cs as [|c t IH]; intros ns S; [exact S|]. rewrite run_cmds_cons. apply IH.
+  rewrite add_node_eq. apply Forall_app. split; [exact S|]. constructor; [|constructor].
+  apply new_node_simple. apply cmd_link_not_multi.
+Qed.
+
+Lemma run_prog_simple env p : simple_links (run_prog env p).
+Proof. apply run_cmds_simple. constructor. Qed.
+
+Lemma bfs_single : bfs [None] = [0%nat].
+Proof. vm_compute. reflexivity. Qed.
+
+(* a program that is one block with count r: the unrolled listing is the unrolled content of the block followed by r-1
+   times the unrolled content of its copy *)
+Theorem prog_block_concat env r body :
+  let sub := copy_nodes env (run_prog env body) in
+  let d := op_depth (OComp r sub) in
+  sub <> [] -> 1 <= r -> (Z.to_nat r * length sub <= max_layers)%nat ->
+  map e_leaf (listing env (apply_modifiers env 1 (run_prog env [CSub r body])))
+  = unrolled_content env (pred d) sub
+    ++ rep_app (Z.to_nat (r - 1)) (unrolled_content env (pred d) (copy_nodes env (copy_nodes env sub))).
+Proof.
+  intros sub d Hne Hr L. rewrite listing_leaves.
+  assert (Ed : d = S (pred d)) by (unfold d; rewrite op_depth_comp; reflexivity).
+  assert (E : apply_modifiers env 1 (run_prog env [CSub r body])
+              = [Node None LNone (OComp 1 (apply_mods_fuel (S (pred d)) env r sub))]).
+  { unfold apply_modifiers. change (run_prog env [CSub r body]) with [Node None LNone (OComp r sub)].
+    change (op_depth (OComp 1 [Node None LNone (OComp r sub)])) with (S (Nat.max d 0)). rewrite Nat.max_0_r, Ed. reflexivity. }
+  rewrite E, op_leaves_comp. change (parents [Node None LNone (OComp 1 (apply_mods_fuel (S (pred d)) env r sub))]) with [@None nat].
+  rewrite bfs_single. cbn [flat_map at_node nth_error n_op]. rewrite app_nil_r.
+  apply unroll_concat; try assumption.
+  - apply copy_nodes_wf_op.
+  - apply copy_nodes_simple, run_prog_simple.
+Qed.
+
+(* ------------------------------------------------------------------ flat blocks built by a program: n*T and the n-fold listing *)
+From QCE Require Import Core.UnrollCopy Core.TimesListing.
+
+(* whether every class' copy() passes on the relation link (finding F3 was about classes for which it did not) *)
+Definition table_keeps : bool := forallb cs_copy_link class_table.
+
+Lemma table_keeps_leaf : table_keeps = true -> forall l, l_keeps l = true.
+Proof.
+  intros T l. unfold l_keeps, class_of. unfold table_keeps in T. rewrite forallb_forall in T.
+  destruct (nth_in_or_default (Z.to_nat (l_cls l)) class_table no_class) as [H | H]; [exact (T _ H) | rewrite H; reflexivity].
+Qed.
+
+Example current_table_keeps : table_keeps = true.
+Proof. vm_compute. reflexivity. Qed.
+
+Lemma l_keeps_current : forall l, l_keeps l = true.
+Proof. apply table_keeps_leaf. exact current_table_keeps. Qed.
+
+(* add_to_graph places an operation without predecessor only if no listed operation shares a channel with it *)
+Lemma new_node_root env ns o l : n_parent (new_node env ns o l) = None -> leaf_at_any ns (op_channels o) = None.
+Proof.
+  unfold new_node. destruct l as [|t p|ps|t]; simpl.
+  - destruct (leaf_at_any ns (op_channels o)); [discriminate | reflexivity].
+  - destruct (Nat.ltb p (length ns)); [discriminate|]. destruct (leaf_at_any ns (op_channels o)); [discriminate | reflexivity].
+  - destruct (latest_of ns ps); [discriminate|]. destruct (leaf_at_any ns (op_channels o)); [discriminate | reflexivity].
+  - destruct (leaf_at_any ns (op_channels o)); [discriminate | reflexivity].
+Qed.
+
+Lemma add_node_roots_apart env ns o l : wf_nodes ns -> roots_apart ns -> roots_apart (add_node env ns o l).
+Proof.
+  intros W RA i j ni nj Hlt Ei Ej Pi Pj. rewrite add_node_eq in Ei, Ej.
+  assert (Hi : (i < S (length ns))%nat).
+  { assert (H : (i < length (ns ++ [new_node env ns o l]))%nat) by (apply nth_error_Some; congruence).
+    rewrite app_length in H. simpl in H. lia. }
+  rewrite nth_error_app1 in Ej by lia.
+  destruct (Nat.lt_ge_cases i (length ns)) as [Hl | Hl].
+  - rewrite nth_error_app1 in Ei by exact Hl. exact (RA i j ni nj Hlt Ei Ej Pi Pj).
+  - rewrite nth_error_app2 in Ei by exact Hl. replace (i - length ns)%nat with 0%nat in Ei by lia. simpl in Ei.
+    inversion Ei; subst ni. rewrite new_node_op. apply new_node_root in Pi.
+    pose proof (leaf_at_any_none ns _ Pi j) as H. unfold node_chans in H.
+    rewrite (nth_indep _ [] (op_channels (n_op nj))) in H by (rewrite map_length; lia).
+    rewrite (map_nth (fun n => op_channels (n_op n)) ns nj j), (nth_error_nth _ _ nj Ej) in H. apply H.
+    apply (bfs_In _ _ (proj1 W)). rewrite parents_length. split; [lia|].
+    rewrite depth_root by (rewrite parents_nth_error, Ej; simpl; now rewrite Pj). pose proof max_layers_eq. lia.
+Qed.
+
+Lemma run_cmds_roots_apart env cs : forall ns, wf_op (OComp 1 ns) -> roots_apart ns -> roots_apart (run_cmds env cs ns).
+Proof.
+  induction cs as [|c t IH]; intros ns W RA; [exact RA|]. rewrite run_cmds_cons. apply IH.
+  - apply add_node_wf_op; [exact W | apply cmd_op_wf | apply cmd_link_in_range].
+  - apply add_node_roots_apart; [exact (proj1 (wf_op_comp_inv _ _ W)) | exact RA].
+Qed.
+
+Lemma run_prog_roots_apart env p : roots_apart (run_prog env p).
+Proof.
+  apply run_cmds_roots_apart; [constructor; [apply wf_nodes_nil | constructor]|].
+  intros i j ni nj _ Ei. destruct i; discriminate.
+Qed.
+
+Lemma run_prog_flat env b : flat_body b = true -> flat (run_prog env b).
+Proof.
+  intros H. apply flat_ops. unfold run_prog. rewrite run_cmds_ops. simpl. apply Forall_map.
+  unfold flat_body in H. rewrite forallb_forall in H. apply Forall_forall. intros c Hc. specialize (H c Hc).
+  destruct c as [l r | l t | r body]; [exists l; reflexivity | exists l; reflexivity | discriminate].
+Qed.
+
+Lemma unroll_node_leaf env fuel nd : (exists l, n_op nd = OLeaf l) -> unroll_node env fuel nd = nd.
+Proof. intros (l & E). destruct nd as [p lk [lf | r sub]]; [reflexivity | discriminate]. Qed.
+
+Lemma apply_mods_fuel_flat env fuel r ns : flat (repeat_nodes env ns r) ->
+  apply_mods_fuel (S fuel) env r ns = repeat_nodes env ns r.
+Proof.
+  intros F. rewrite apply_mods_fuel_S. apply map_id_on. eapply Forall_impl; [|exact F]. intros nd. apply unroll_node_leaf.
+Qed.
+
+(* a circuit that consists of one block: its extent is that of the block, clipped at its own start *)
+Lemma singleton_duration env o lo hi : ext_of env o = (lo, hi) ->
+  comp_duration env [Node None LNone o] = Z.max 0 hi - Z.min 0 lo.
+Proof.
+  intros H. unfold comp_duration, dur_of. rewrite ext_of_unfold.
+  change (parents [Node None LNone o]) with [@None nat]. unfold extent_of_nodes. rewrite bfs_single.
+  change (depth1 [None]) with [0%nat].
+  change (node_times env None [Node None LNone o]) with [(0, 0 + dur_of env o)].
+  cbn [map n_op fold_left nth fst snd zmin_list]. rewrite H. cbn [fst snd]. lia.
+Qed.
+
+(* one flat block with count n, built by a program: after apply_modifiers the circuit lasts n*T and lists the block n times *)
+Theorem prog_flat_block env body n T : flat_body body = true -> blk env (run_prog env body) T ->
+  1 <= n -> (Z.to_nat n * length body <= max_layers)%nat ->
+  comp_duration env (apply_modifiers env 1 (run_prog env [CSub n body])) = n * T
+  /\ map e_leaf (listing env (apply_modifiers env 1 (run_prog env [CSub n body])))
+     = rep_app (Z.to_nat n) (map e_leaf (listing env (run_prog env body))).
+Proof.
+  intros FB Hb Hn L. set (ns0 := run_prog env body) in *. set (sub := copy_nodes env ns0).
+  pose proof copy_leaf_id_current as Hcopy. pose proof l_keeps_current as Hkeeps.
+  assert (L0 : (length ns0 <= max_layers)%nat).
+  { unfold ns0, run_prog. rewrite run_cmds_length. simpl. rewrite (Z_to_nat_pred n Hn) in L. lia. }
+  assert (Len : length ns0 = length body) by (unfold ns0, run_prog; rewrite run_cmds_length; reflexivity).
+  pose proof (run_prog_wf env body) as W0. fold ns0 in W0.
+  pose proof (run_prog_flat env body FB) as F0. fold ns0 in F0.
+  pose proof (run_prog_simple env body) as S0. fold ns0 in S0.
+  pose proof (run_prog_roots_apart env body) as R0. fold ns0 in R0.
+  pose proof (blk_copy env ns0 Hcopy Hkeeps W0 F0 S0 R0 L0 T Hb) as Hsub. fold sub in Hsub.
+  pose proof (cf_flat env ns0 Hcopy Hkeeps W0 F0 S0 L0) as Fsub. fold sub in Fsub.
+  pose proof (copy_nodes_simple env ns0 S0) as Ssub. fold sub in Ssub.
+  pose proof (cf_roots_apart env ns0 Hcopy Hkeeps W0 F0 S0 R0 L0) as Rsub. fold sub in Rsub.
+  pose proof (copy_nodes_length env ns0 W0) as Lsub. fold sub in Lsub.
+  assert (Lr : (Z.to_nat n * length sub <= max_layers)%nat) by nia.
+  destruct (repeat_blk_flat env sub n T Hcopy Hkeeps Hsub Ssub Rsub Hn Lr) as [HR LR].
+  set (d := op_depth (OComp n sub)).
+  assert (Ed : d = S (pred d)) by (unfold d; rewrite op_depth_comp; reflexivity).
+  assert (E : apply_modifiers env 1 (run_prog env [CSub n body]) = [Node None LNone (OComp 1 (repeat_nodes env sub n))]).
+  { unfold apply_modifiers. change (run_prog env [CSub n body]) with [Node None LNone (OComp n sub)].
+    change (op_depth (OComp 1 [Node None LNone (OComp n sub)])) with (S (Nat.max d 0)). rewrite Nat.max_0_r, Ed.
+    change (apply_mods_fuel (S (S (pred d))) env 1 [Node None LNone (OComp n sub)])
+      with [Node None LNone (OComp 1 (apply_mods_fuel (S (pred d)) env n sub))].
+    rewrite apply_mods_fuel_flat; [reflexivity | exact (blk_flat _ _ _ HR)]. }
+  rewrite E. split.
+  - rewrite (singleton_duration env _ 0 (n * T) (blk_extent env _ 1 (n * T) HR LR)). pose proof (blk_T _ _ _ HR). lia.
+  - rewrite listing_leaves, op_leaves_comp.
+    change (parents [Node None LNone (OComp 1 (repeat_nodes env sub n))]) with [@None nat].
+    rewrite bfs_single. cbn [flat_map at_node nth_error n_op]. rewrite app_nil_r, op_leaves_olist.
+    rewrite (repeat_flat_olist op_leaves env sub n Hcopy Hkeeps (blk_wf _ _ _ Hsub) Fsub Ssub Rsub (blk_ne _ _ _ Hsub) Hn Lr).
+    unfold sub. rewrite (copy_flat_olist env ns0 Hcopy Hkeeps W0 F0 S0 R0 L0 op_leaves). now rewrite listing_olist.
+Qed.
+
+Theorem run_prog_block_facts env p : simple_links (run_prog env p) /\ roots_apart (run_prog env p).
+Proof. split; [apply run_prog_simple | apply run_prog_roots_apart]. Qed.
+
+(* graph level, for the classes of the current source *)
+Theorem repeat_nT_current env ns n T : blk env ns T -> simple_links ns -> roots_apart ns -> 1 <= n ->
+  (Z.to_nat n * length ns <= max_layers)%nat -> comp_duration env (repeat_nodes env ns n) = n * T.
+Proof. apply repeat_nT_flat; [exact copy_leaf_id_current | exact l_keeps_current]. Qed.
+
+Theorem repeat_flat_listing_current env ns n : wf_nodes ns -> flat ns -> simple_links ns -> roots_apart ns -> ns <> [] -> 1 <= n ->
+  (Z.to_nat n * length ns <= max_layers)%nat ->
+  map e_leaf (listing env (repeat_nodes env ns n)) = rep_app (Z.to_nat n) (map e_leaf (listing env ns)).
+Proof. apply repeat_flat_listing; [exact copy_leaf_id_current | exact l_keeps_current]. Qed.
+
+(* ------------------------------------------------------------------ examples / non-vacuity *)
+Definition ex_env : denv := mk_env 8 2 4 16 [].
+Definition ex_leaf (lab cls q : Z) : leaf := mk_leaf lab cls [q] QubitChannel_ALL (default_dstrat cls) None.
+Definition ex_cz (lab : Z) : leaf := mk_leaf lab C_CPhase [0; 1] QubitChannel_ALL (DGlobal GFlux) None.
+
+(* nested counts 2 and 3: the inner leaf (label 3) occurs 6 times, the leaves of the outer block twice, the others once *)
+Definition ex_prog : list cmd :=
+  [ CAdd (ex_leaf 0 C_Rx180 0) None;
+    CSub 2 [ CAdd (ex_leaf 1 C_Rx90 0) None; CAdd (ex_leaf 2 C_Ry90 1) None;
+             CSub 3 [ CAdd (ex_cz 3) None ];
+             CAdd (ex_leaf 4 C_Rxm90 0) None ];
+    CAdd (ex_leaf 5 C_Ry180 1) None ].
+
+Example ex_unroll_small : unroll_small_prog ex_prog.
+Proof. split; [vm_compute; discriminate|]. repeat (constructor; try (vm_compute; discriminate)). Qed.
+
+Example ex_unrolled_listing :
+  map l_lab (map e_leaf (listing ex_env (apply_modifiers ex_env 1 (run_prog ex_env ex_prog))))
+  = [0; 1; 2; 3; 3; 3; 4; 1; 2; 3; 3; 3; 4; 5]
+  /\ map l_lab (prog_expanded ex_prog) = [0; 1; 2; 3; 3; 3; 4; 1; 2; 3; 3; 3; 4; 5]
+  /\ length (filter (Z.eqb 3) (map l_lab (map e_leaf (listing ex_env (apply_modifiers ex_env 1 (run_prog ex_env ex_prog)))))) = 6%nat.
+Proof. vm_compute. repeat split. Qed.
+
+Example ex_unrolled_multiset :
+  Permutation (map e_leaf (listing ex_env (apply_modifiers ex_env 1 (run_prog ex_env ex_prog)))) (prog_expanded ex_prog).
+Proof. apply unroll_listing_multiset. exact ex_unroll_small. Qed.
+
+(* the copies are back to back: (label, start, end) *)
+Example ex_unrolled_times :
+  map (fun e => (l_lab (e_leaf e), e_start e, e_end e)) (listing ex_env (apply_modifiers ex_env 1 (run_prog ex_env ex_prog)))
+  = [(0, 0, 2); (1, 2, 4); (2, 2, 4); (3, 4, 8); (3, 8, 12); (3, 12, 16); (4, 16, 18);
+     (1, 18, 20); (2, 18, 20); (3, 20, 24); (3, 24, 28); (3, 28, 32); (4, 32, 34); (5, 34, 36)].
+Proof. vm_compute. reflexivity. Qed.
+
+(* the counts before are not all 1 (so idempotence and counts_one are not vacuous) *)
+Example ex_counts_before : ~ counts_one (OComp 1 (run_prog ex_env ex_prog)).
+Proof.
+  intros H. apply counts_one_comp_inv in H as [_ F]. vm_compute in F.
+  inversion F as [|? ? _ F1]; subst. inversion F1 as [|? ? H1 _]; subst. inversion H1.
+Qed.
+
+Example ex_unroll_changes : apply_modifiers ex_env 1 (run_prog ex_env ex_prog) <> run_prog ex_env ex_prog.
+Proof. vm_compute. discriminate. Qed.
+
+(* a flat two-qubit block of duration 8 whose last operation is a relation leaf; repeated 3 times: 24 *)
+Definition ex_body : list cmd :=
+  [ CAdd (ex_leaf 1 C_Rx90 0) None; CAdd (ex_leaf 2 C_Ry90 1) None; CAdd (ex_cz 3) None; CAdd (ex_leaf 4 C_Rxm90 0) None ].
+Definition ex_block : list node := run_prog ex_env ex_body.
+
+Example ex_block_blk : blk ex_env ex_block 8 /\ simple_links ex_block
+                       /\ blk ex_env (copy_nodes ex_env (copy_nodes ex_env ex_block)) 8.
+Proof.
+  split; [apply blk_check_sound; [apply run_prog_wf | vm_compute; reflexivity]|].
+  split; [apply simple_check_sound; vm_compute; reflexivity|].
+  apply blk_check_sound; [apply copy_nodes_wf | vm_compute; reflexivity].
+Qed.
+
+Example ex_block_nT : comp_duration ex_env (repeat_nodes ex_env ex_block 3) = 3 * 8.
+Proof.
+  destruct ex_block_blk as (H1 & H2 & H3). apply repeat_nT; try assumption; [lia|].
+  vm_compute. apply Nat.leb_le. vm_compute. reflexivity.
+Qed.
+
+Example ex_block_nT_computed : comp_duration ex_env ex_block = 8 /\ comp_duration ex_env (repeat_nodes ex_env ex_block 3) = 24.
+Proof. vm_compute. split; reflexivity. Qed.
+
+(* the hypotheses of extend_first_ops_start / extend_times_shift / the concatenation theorems on this block *)
+Example ex_extend_hyps :
+  graph_leaves (parents ex_block) = [0; 3]%nat /\ bfs (parents ex_block) = [0; 1; 2; 3]%nat
+  /\ map n_link (extend ex_env ex_block (copy_nodes ex_env ex_block))
+     = [LNone; LNone; LRel RelationType_FOLLOWED_BY 1; LRel RelationType_FOLLOWED_BY 2;
+        LMulti [0; 3]%nat; LMulti [0; 3]%nat; LRel RelationType_FOLLOWED_BY 5; LRel RelationType_FOLLOWED_BY 6]
+  /\ parents (extend ex_env ex_block (copy_nodes ex_env ex_block))
+     = [None; None; Some 1; Some 2; Some 3; Some 3; Some 5; Some 6]%nat
+  /\ node_times ex_env None (extend ex_env ex_block (copy_nodes ex_env ex_block))
+     = [(0, 2); (0, 2); (2, 6); (6, 8); (8, 10); (8, 10); (10, 14); (14, 16)].
+Proof. vm_compute. repeat split. Qed.
+
+Example ex_block_concat :
+  map l_lab (map e_leaf (listing ex_env (repeat_nodes ex_env ex_block 3))) = [1; 2; 3; 4; 1; 2; 3; 4; 1; 2; 3; 4].
+Proof. vm_compute. reflexivity. Qed.
+
+(* the program [CSub 3 ex_body]: duration 3 * 8 and the 3-fold listing, by the theorem and by computation *)
+Example ex_prog_flat_block :
+  comp_duration ex_env (apply_modifiers ex_env 1 (run_prog ex_env [CSub 3 ex_body])) = 3 * 8
+  /\ map e_leaf (listing ex_env (apply_modifiers ex_env 1 (run_prog ex_env [CSub 3 ex_body])))
+     = rep_app 3 (map e_leaf (listing ex_env (run_prog ex_env ex_body))).
+Proof.
+  apply prog_flat_block; [reflexivity | exact (proj1 ex_block_blk) | lia |].
+  vm_compute. apply Nat.leb_le. vm_compute. reflexivity.
+Qed.
+
+Example ex_roots_apart : roots_apart ex_block /\ flat ex_block /\ ex_block <> [].
+Proof. split; [apply run_prog_roots_apart|]. split; [apply run_prog_flat; reflexivity | vm_compute; discriminate]. Qed.
